@@ -50,6 +50,8 @@ def classify(ev, events, pos):
         feats.append("unwind-of-id")
     if re.search(r"\b(starts\s+with|ends\s+with|contains)\s+\(*\s*id\s*\(", low):
         feats.append("string-operator-on-id")
+    if re.search(r"\*[^\]]*\]\s*-\s*>?\s*\(\s*\w*(?::\w+)*\s*\)\s*<?\s*-\s*\[", low):
+        feats.append("expansion-then-step")
     if re.search(r"\{[^}]*\b(any|all|none|single)\s*\(", low):
         feats.append("quantifier-in-inline-map")
     if re.search(r"\b(?!id\b)[a-z]\w*\s*\(\s*(?:distinct\s+)?\(*\s*id\s*\(", low):
